@@ -1090,23 +1090,51 @@ func (d *Data) addSubvolumes(layer *layerT, subvolumes *subvolumesT, batchsize i
 	}
 }
 
+// zExtents returns the minimum and maximum block z of the ROI stored at the version of the context.
+// The instance-wide MinZ and MaxZ properties follow the most recent POST at any version, so they
+// cannot answer for a particular version.
+func (d *Data) zExtents(ctx storage.Context) (minZ, maxZ int32, err error) {
+	vctx, ok := ctx.(*datastore.VersionedCtx)
+	if !ok {
+		return d.MinZ, d.MaxZ, nil
+	}
+	spans, err := getSpans(vctx, minIndexRLE, maxIndexRLE)
+	if err != nil {
+		return 0, 0, err
+	}
+	minZ, maxZ = math.MaxInt32, math.MinInt32
+	for _, span := range spans {
+		if span[0] < minZ {
+			minZ = span[0]
+		}
+		if span[0] > maxZ {
+			maxZ = span[0]
+		}
+	}
+	return minZ, maxZ, nil
+}
+
 // Partition returns JSON of differently sized subvolumes that attempt to distribute
 // the number of active blocks per subvolume.
 func (d *Data) Partition(ctx storage.Context, batchsize int32) ([]byte, error) {
 	// Partition Z as perfectly as we can.
-	dz := d.MaxZ - d.MinZ + 1
+	minZ, maxZ, err := d.zExtents(ctx)
+	if err != nil {
+		return nil, err
+	}
+	dz := maxZ - minZ + 1
 	zleft := dz % batchsize
 
 	// Adjust Z range
-	layerBegZ := d.MinZ
+	layerBegZ := minZ
 	layerEndZ := layerBegZ + batchsize - 1
 
 	// Iterate through blocks in ascending Z, calculating active extents and subvolume coverage.
 	// Keep track of current layer = batchsize of blocks in Z.
 	var subvolumes subvolumesT
 	subvolumes.Subvolumes = []subvolumeT{}
-	subvolumes.ROI.MinChunk[2] = d.MinZ
-	subvolumes.ROI.MaxChunk[2] = d.MaxZ
+	subvolumes.ROI.MinChunk[2] = minZ
+	subvolumes.ROI.MaxChunk[2] = maxZ
 
 	layer := d.newLayer(layerBegZ, layerEndZ)
 
@@ -1235,20 +1263,24 @@ func (d *Data) addSubvolumesGrid(layer *layerT, subvolumes *subvolumesT, batchsi
 // SimplePartition returns JSON of identically sized subvolumes arranged over ROI
 func (d *Data) SimplePartition(ctx storage.Context, batchsize int32) ([]byte, error) {
 	// Partition Z as perfectly as we can.
-	dz := d.MaxZ - d.MinZ + 1
+	minZ, maxZ, err := d.zExtents(ctx)
+	if err != nil {
+		return nil, err
+	}
+	dz := maxZ - minZ + 1
 	zleft := dz % batchsize
 
 	// Adjust Z range
 	addZtoTop := zleft / 2
-	layerBegZ := d.MinZ - addZtoTop
+	layerBegZ := minZ - addZtoTop
 	layerEndZ := layerBegZ + batchsize - 1
 
 	// Iterate through blocks in ascending Z, calculating active extents and subvolume coverage.
 	// Keep track of current layer = batchsize of blocks in Z.
 	var subvolumes subvolumesT
 	subvolumes.Subvolumes = []subvolumeT{}
-	subvolumes.ROI.MinChunk[2] = d.MinZ
-	subvolumes.ROI.MaxChunk[2] = d.MaxZ
+	subvolumes.ROI.MinChunk[2] = minZ
+	subvolumes.ROI.MaxChunk[2] = maxZ
 
 	layer := d.newLayer(layerBegZ, layerEndZ)
 
